@@ -5,6 +5,7 @@ import (
 	"go/ast"
 	"go/token"
 	"go/types"
+	"strings"
 
 	"verif/sa/core"
 )
@@ -258,6 +259,39 @@ func init() {
 					"common/db.KV.Set", "common/db.KVDB.Set"}
 				core.NoCallsIn{Fns: []string{bsm + "AddTxs", bsm + "DelTxs", bsm + "SaveBlock", bsm + "DelBlock", bsm + "saveBlockSequence", bsm + "saveBlockForTable", bsm + "SaveTdByBlockHash"},
 					Forbidden: direct, Why: "every record of the block must be part of the caller's atomic batch"}.Check(r)
+				// ... and neither does any helper they call inside package blockchain (call-graph closure)
+				{
+					var entries []*core.FuncInfo
+					for _, fn := range []string{bsm + "AddTxs", bsm + "DelTxs", bsm + "SaveBlock", bsm + "DelBlock", bsm + "saveBlockSequence", bsm + "saveBlockForTable", bsm + "SaveTdByBlockHash"} {
+						if f := r.W.Func(fn); f != nil {
+							entries = append(entries, f)
+						}
+					}
+					cg := core.NewCallGraph(r.W)
+					inPkg := func(f *core.FuncInfo) bool { return f.Pkg != nil && strings.HasSuffix(f.Pkg.PkgPath, "chain33/blockchain") }
+					reach := cg.Reach(entries, func(f *core.FuncInfo) bool { return !inPkg(f) })
+					forb := core.Names(direct...)
+					label := "helpers reached from the batch-filling functions perform no direct durable write"
+					bad := ""
+					n := 0
+					for f, chain := range reach {
+						if !inPkg(f) {
+							continue
+						}
+						n++
+						ast.Inspect(f.Body(), func(x ast.Node) bool {
+							if call, ok := x.(*ast.CallExpr); ok && bad == "" && forb.Has(core.Callee(f.Info(), call)) {
+								bad = fmt.Sprintf("%s: `%s` (reached through %s) writes on its own: part of the block's records would become durable before the rest", r.W.Pos(call.Pos()), core.ExprStr(call), strings.Join(chain, " → "))
+							}
+							return true
+						})
+					}
+					if bad != "" {
+						r.Fail(label, "-", bad)
+					} else {
+						r.OK(label, "-", fmt.Sprintf("%d functions of package blockchain in the closure, none writes directly", n))
+					}
+				}
 				// exactly one write of that batch in connectBlock / disconnectBlock
 				for _, fn := range []string{bcm + "connectBlock", bcm + "disconnectBlock"} {
 					f := r.Fn(fn)
